@@ -11,6 +11,8 @@ import (
 	"sync"
 
 	"github.com/zeebo/errs"
+
+	"storj.io/drpc/drpcdebug"
 )
 
 // Closed is returned by routed listeners when the mux is closed.
@@ -138,6 +140,7 @@ func (m *ListenMux) monitorListener(prefix string, lis *listener) {
 		})
 	case <-lis.done:
 	}
+	drpcdebug.Point("mux.monitorListener.beforeUnregister")
 	m.mu.Lock()
 	delete(m.routes, prefix)
 	m.mu.Unlock()
